@@ -384,3 +384,60 @@ Fixpoint nodup_keys (o : obj) : bool :=
 
 (* no explicitly written empty value in the entry *)
 Definition no_empty (o : obj) : bool := forallb (fun kv : string * jv => negb (jempty (snd kv))) o.
+
+Local Open Scope string_scope.
+(* ---------------------------------------------------------------------------------------------- *)
+(* String-valued settings (config/relayer/config.go RawRelayerConfig and its sub-structs, the string /
+   bool / list fields of the chain configs).  Both loaders hand the written text over unchanged:
+     env loader   config/env.go loadENVToJsonStructure: the entry NAME=VALUE is split at its FIRST '=',
+                  the NAME at every '_' (nesting; matched case-insensitively by encoding/json); the
+                  VALUE is not interpreted;
+     file loader  viper + mapstructure: keys are lower-cased, values are not interpreted.
+   The only documented exceptions: a required setting (topology encryption key / url / path, chain
+   name / endpoint / bridge / username / password) that is absent or empty is an error, and an absent
+   or empty setting with a default takes the default (logFile -> "out.log", bools -> false). *)
+
+Inductive str_rule := Required | Defaulted (d : string) | Plain.
+
+Definition written_text (w : option string) : string := match w with Some s => s | None => "" end.
+
+Definition load_string (r : str_rule) (w : option string) : option string :=
+  if String.eqb (written_text w) "" then
+    match r with Required => None | Defaulted d => Some d | Plain => Some "" end
+  else Some (written_text w).
+
+Definition missing_required (rw : str_rule * option string) : bool :=
+  match load_string (fst rw) (snd rw) with None => true | Some _ => false end.
+
+(* a whole configuration: any missing required setting fails the load *)
+Definition load_strings (ws : list (str_rule * option string)) : option (list string) :=
+  if existsb missing_required ws then None
+  else Some (map (fun rw : str_rule * option string =>
+                    match load_string (fst rw) (snd rw) with Some s => s | None => "" end) ws).
+
+(* JUDGE: the load fails, or every loaded value equals the written text (an absent / empty text may
+   have been replaced by the documented default) - never a silently altered value *)
+Definition str_ok (r : str_rule) (w : option string) (got : string) : bool :=
+  if String.eqb (written_text w) "" then
+    String.eqb got "" || match r with Defaulted d => String.eqb got d | _ => false end
+  else String.eqb got (written_text w).
+
+Fixpoint strs_ok_list (ws : list (str_rule * option string)) (gs : list string) : bool :=
+  match ws, gs with
+  | [], [] => true
+  | (r, w) :: ws', g :: gs' => str_ok r w g && strs_ok_list ws' gs'
+  | _, _ => false
+  end.
+
+Definition strs_ok (ws : list (str_rule * option string)) (impl : option (list string)) : bool :=
+  match impl with None => true | Some gs => strs_ok_list ws gs end.
+
+(* LogLevel: zerolog.ParseLevel on the level names (numeric texts are outside the model) *)
+Definition level_names : list string :=
+  ["trace"; "debug"; "info"; "warn"; "error"; "fatal"; "panic"; "disabled"]%string.
+
+Definition parse_level (s : string) : option string :=
+  if existsb (String.eqb s) level_names then Some s else None.
+
+Definition level_ok (text : string) (impl : option string) : bool :=
+  match impl with None => true | Some l => String.eqb l text end.
